@@ -350,7 +350,11 @@ func (p *printer) header(kw string, toks []string) {
 	p.code(toks)
 	p.b.WriteString(p.pad(last, ")"))
 	p.b.WriteString(")")
-	p.spans = append(p.spans, Span{Kind: "header", Start: start, OpenEnd: start + len(kw), End: p.b.Len()})
+	open := start + len(kw)
+	if kw == "@slot" {
+		open++ // "@slot" alone is complete; only "@slot(" opens an argument list
+	}
+	p.spans = append(p.spans, Span{Kind: "header", Start: start, OpenEnd: open, End: p.b.Len()})
 }
 
 func (p *printer) block(kw string, start int) {
@@ -481,8 +485,13 @@ func (p *printer) stmt(s *Stmt) {
 		}
 		p.header("@component", toks)
 		if len(s.Slots) > 0 {
-			for _, sl := range s.Slots {
+			// up to the first "@slot" keyword the source is a complete slot-less use
+			openEnd := 0
+			for i, sl := range s.Slots {
 				p.b.WriteString(sl.Text) // whitespace before the slot
+				if i == 0 {
+					openEnd = p.b.Len() + len("@slot")
+				}
 				if sl.Name == "" {
 					p.b.WriteString("@slot")
 				} else {
@@ -493,7 +502,7 @@ func (p *printer) stmt(s *Stmt) {
 			}
 			p.b.WriteString(s.Text) // whitespace before the closing @end
 			p.b.WriteString("@end")
-			p.block("@component", start)
+			p.spans = append(p.spans, Span{Kind: "block", Start: start, OpenEnd: openEnd, End: p.b.Len()})
 		}
 	case SSlot:
 		if s.Name == "" {
